@@ -7,7 +7,9 @@ import HalmosVerif.Gen.Selectors
 namespace HalmosVerif.Props.C13
 open HalmosVerif.Lemmas.KeccakTables HalmosVerif.Gen.Selectors
 
-theorem halmosSelectors0_ok : halmosSelectors0.all selOk = true := by decide +kernel
-theorem consoleSelectors0_ok : consoleSelectors0.all selOk = true := by decide +kernel
+theorem halmosSelectors0_ok : halmosSelectors0.all selOk = true :=
+  all_quarters 10 (by decide +kernel) (by decide +kernel) (by decide +kernel) (by decide +kernel)
+theorem consoleSelectors0_ok : consoleSelectors0.all selOk = true :=
+  all_quarters 10 (by decide +kernel) (by decide +kernel) (by decide +kernel) (by decide +kernel)
 
 end HalmosVerif.Props.C13
